@@ -178,11 +178,11 @@ theorem sendResendRequest_is (y : Sess) (a b : Int) : ∃ f, (sendResendRequest 
     or the gap fill, written behind the Logon with the queue dropped (EnqueueBytesAndSend while not logged on) or — without
     a connection — left alone in the queue -/
 theorem nxEval_logon (g0 : G8) (y : Sess) (m : InMsg) (ns : Int) (hyl : y.st.loggedOn = false) :
-    Fr y (nxEval y m ns) ∧
-    (((nxEval y m ns).toSend = y.toSend ∧ g8Of g0 (nxEval y m ns) = g8Of g0 y) ∨
+    Fr y (nxEval y m ns).1 ∧
+    (((nxEval y m ns).1.toSend = y.toSend ∧ g8Of g0 (nxEval y m ns).1 = g8Of g0 y) ∨
      ∃ m', (m'.kind == "5") = false ∧ appFirst m' = false ∧
-       (y.out = true → (nxEval y m ns).toSend = [] ∧ g8Of g0 (nxEval y m ns) = wr (g8Of g0 y) [m']) ∧
-       (y.out = false → (nxEval y m ns).toSend = [m'] ∧ g8Of g0 (nxEval y m ns) = g8Of g0 y)) := by
+       (y.out = true → (nxEval y m ns).1.toSend = [] ∧ g8Of g0 (nxEval y m ns).1 = wr (g8Of g0 y) [m']) ∧
+       (y.out = false → (nxEval y m ns).1.toSend = [m'] ∧ g8Of g0 (nxEval y m ns).1 = g8Of g0 y)) := by
   have hk : ∀ o : OutMsg, (o.kind == "5") = false → appFirst o = false →
       Fr y (enqueueAndSend y o) ∧
       (((enqueueAndSend y o).toSend = y.toSend ∧ g8Of g0 (enqueueAndSend y o) = g8Of g0 y) ∨
@@ -232,8 +232,8 @@ theorem h8_logonFixMsgIn (g0 : G8) (s : Sess) (m : InMsg) (hl : s.st.isLogon = t
       dsimp only at hspec
       generalize ((x.setSentReset false).emit (.armPeer (1200 * x.hb))).emit .onLogon = y0 at hy0 hgy0 hq0 hspec
       obtain ⟨fy, hcase⟩ := nxEval_logon g0 y0 m ns (by rw [hy0.st]; exact hxl')
-      have hy : Fr x (nxEval y0 m ns) := hy0.trans fy
-      have hgy : WK g0 s → g8Of g0 (nxEval y0 m ns) = c8o (g8Of g0 x) .onLogon := by
+      have hy : Fr x (nxEval y0 m ns).1 := hy0.trans fy
+      have hgy : WK g0 s → g8Of g0 (nxEval y0 m ns).1 = c8o (g8Of g0 x) .onLogon := by
         intro hW
         rcases hcase with ⟨_, hg⟩ | ⟨m', h5, ha, hc1, hc2⟩
         · rw [hg, hgy0]
@@ -251,7 +251,7 @@ theorem h8_logonFixMsgIn (g0 : G8) (s : Sess) (m : InMsg) (hl : s.st.isLogon = t
               (fun z hz => by simp only [List.mem_singleton] at hz; subst hz; exact h5)
               (fun z hz hap => by simp only [List.mem_singleton] at hz; subst hz; rw [ha] at hap; cases hap)
             exact this
-      have hyq : ∀ g, Q g x.toSend → Q g (nxEval y0 m ns).toSend := by
+      have hyq : ∀ g, Q g x.toSend → Q g (nxEval y0 m ns).1.toSend := by
         intro g hQ
         rcases hcase with ⟨hq, _⟩ | ⟨m', h5, ha, hc1, hc2⟩
         · rw [hq, hq0]; exact hQ
@@ -265,7 +265,7 @@ theorem h8_logonFixMsgIn (g0 : G8) (s : Sess) (m : InMsg) (hl : s.st.isLogon = t
           (fun hW => by rw [(sil_incrTarget _).g8 g0, hgy hW]) hyq
       · rw [h]
         dsimp only
-        generalize nxEval y0 m ns = y at hy hgy hyq
+        generalize (nxEval y0 m ns).1 = y at hy hgy hyq
         have hsp : ∀ mm : OutMsg, (mm.kind == "5") = false → appFirst mm = false →
             Fr y (sendInReplyTo y mm) ∧ g8Of g0 (sendInReplyTo y mm) = g8Of g0 y ∧
             ((sendInReplyTo y mm).toSend = y.toSend ∨ ∃ m', (sendInReplyTo y mm).toSend = y.toSend ++ [m'] ∧ (m'.kind == "5") = false ∧ appFirst m' = false) := by
